@@ -29,7 +29,8 @@ type c20Case struct {
 	ReadLimit  int       `json:"read_limit"`  // bytes/s towards clients (0 = none)
 	WriteLimit int       `json:"write_limit"` // bytes/s accepted from clients (0 = none)
 	Conns      []c20Conn `json:"conns"`
-	PP         bool      `json:"proxy_protocol"` // the listener also expects a PROXY protocol header
+	PP         bool      `json:"proxy_protocol"`        // the listener also expects a PROXY protocol header
+	ShutdownMs int       `json:"shutdown_ms,omitempty"` // graceful shutdown (no drain limit) is requested this long after the start: the transfers go on, and so do the limits
 	WOne       int       `json:"w_one"`
 	WRand      int       `json:"w_rand"`
 }
@@ -103,6 +104,11 @@ func genC20(t *tape.Tape, tier string) any {
 		}
 	}
 	c.PP = t.Chance(1, 4)
+	if c.ReadLimit > 0 && c.WriteLimit == 0 && t.Chance(1, 3) {
+		// (only the direction towards the clients is limited: every request has been read, at full speed, long before
+		// the shutdown request - a request the proxy reads after that is legitimately dropped)
+		c.ShutdownMs = []int{200, 1500, 4000}[t.Intn(3)]
+	}
 	c.WOne = 0
 	c.WRand = t.Pick(3, 2) * 2
 	return c
@@ -281,7 +287,7 @@ func runC20(env *core.Env, ci any) {
 			}
 		})
 	}
-	s, err := sut.Start(env, sut.Options{Config: func(cfg *forwarder.HTTPProxyConfig) {
+	s, err := sut.Start(env, sut.Options{ShutdownNoLimit: c.ShutdownMs > 0, Config: func(cfg *forwarder.HTTPProxyConfig) {
 		cfg.ProxyLocalhost = forwarder.AllowProxyLocalhost
 		cfg.ReadLimit = forwarder.SizeSuffix(c.ReadLimit)
 		cfg.WriteLimit = forwarder.SizeSuffix(c.WriteLimit)
@@ -292,6 +298,13 @@ func runC20(env *core.Env, ci any) {
 	if err != nil {
 		env.Fail("harness-start", "", "start: %v", err)
 		return
+	}
+	if c.ShutdownMs > 0 {
+		go func() {
+			time.Sleep(time.Duration(c.ShutdownMs) * time.Millisecond)
+			s.RequestShutdown()
+			env.Fault("shutdown-requested-during-limited-transfers")
+		}()
 	}
 	done := make([]int, len(c.Conns))
 	fails := make([]string, len(c.Conns))
